@@ -12,6 +12,7 @@ import (
 	"dsim/core"
 	"dsim/simdisk"
 
+	"github.com/diskfs/go-diskfs/partition"
 	"github.com/google/uuid"
 )
 
@@ -45,7 +46,7 @@ func (c14) Components() map[string][]string {
 	}
 }
 func (c14) ProbeNames() []string {
-	return []string{"clock-jump", "control-differs", "fat", "table", "epoch-pre-1980", "epoch-odd", "epoch-zero", "different-start"}
+	return []string{"clock-jump", "control-differs", "fat", "table", "epoch-pre-1980", "epoch-odd", "epoch-zero", "different-start", "read-then-rewrite"}
 }
 func (c14) Budget(tier string) (int, int, int) {
 	if tier == "thorough" {
@@ -140,6 +141,8 @@ func RunC14Child(traceFile, mode string) string {
 		}
 		d := simdisk.New(size)
 		var out []string
+		kinds := map[string]bool{}
+		lastOK := false
 		for i := 0; i < len(t.Ops); i++ {
 			o := t.Ops[i]
 			if o.K != "gpt" && o.K != "mbr" {
@@ -160,8 +163,31 @@ func RunC14Child(traceFile, mode string) string {
 				err = mbrFromOps(t.Ops[i+1:j], "mp").table(int(lss), int(lss)).Write(d, size)
 			}
 			out = append(out, fmt.Sprintf("%v", err == nil))
+			if err == nil {
+				kinds[o.K] = true
+				lastOK = true
+			} else {
+				lastOK = false
+			}
 		}
-		return fmt.Sprintf("HASH %s jumps=%d span=%ds accepted=%s", canonHash(d, 0, size), jumps, int64(time.Since(t0).Seconds())+t.I("jump0"), strings.Join(out, ","))
+		// "rewriting a table that was read from disk changes nothing": boot code and a disk signature are put into
+		// LBA 0 after the table was written (as installing a boot loader does), the table is read and written back
+		rewrite := "n/a"
+		if len(kinds) == 1 && lastOK {
+			d.Poke(0, core.PatternBytes(t.Seed^0xb007, 446))
+			before := canonHash(d, 0, size)
+			tb, rerr := partition.Read(d, int(lss), int(lss))
+			if rerr != nil {
+				rewrite = "unreadable:" + rerr.Error()
+			} else if werr := tb.Write(d, size); werr != nil {
+				rewrite = "refused:" + werr.Error()
+			} else if canonHash(d, 0, size) != before {
+				rewrite = "CHANGED"
+			} else {
+				rewrite = "same"
+			}
+		}
+		return fmt.Sprintf("HASH %s jumps=%d span=%ds accepted=%s rewrite=%s", canonHash(d, 0, size), jumps, int64(time.Since(t0).Seconds())+t.I("jump0"), strings.Join(out, ","), strings.ReplaceAll(rewrite, " ", "_"))
 	}
 	if mode != "A" {
 		t.Cfg["start"] = t.I("startB")
@@ -242,6 +268,22 @@ func (p c14) Exec(t *core.Trace) *core.Result {
 		res.V = &core.Violation{Clause: "C14.images-differ", Trigger: wl + "(clock-jump,other-process,other-offset)", Locus: map[string]string{"fat": "filesystem/fat12", "table": "partition"}[wl], OpIndex: len(t.Ops) - 1,
 			Detail: fmt.Sprintf("two executions of the same history in reproducible mode (SOURCE_DATE_EPOCH=%d) produced different images\n A: %s\n B: %s", t.I("sde"), la, lb)}
 		return res
+	}
+	if wl == "table" {
+		for _, ln := range []string{la, lb} {
+			switch rw := after(ln, "rewrite="); {
+			case strings.HasPrefix(rw, "CHANGED"):
+				res.V = &core.Violation{Clause: "C14.rewrite-changed-bytes", Trigger: "table(read-then-write)", Locus: "partition", OpIndex: len(t.Ops) - 1,
+					Detail: "a table read from the disk and written back changed bytes of the disk (boot code area of LBA 0 filled after the table was written)\n " + ln}
+				return res
+			case strings.HasPrefix(rw, "unreadable"), strings.HasPrefix(rw, "refused"):
+				res.V = &core.Violation{Clause: "C14.rewrite-failed", Trigger: "table(read-then-write)", Locus: "partition", OpIndex: len(t.Ops) - 1,
+					Detail: "the table that was just written cannot be read and written back\n " + ln}
+				return res
+			case strings.HasPrefix(rw, "same"):
+				res.Probe("read-then-rewrite")
+			}
+		}
 	}
 	if wl == "fat" {
 		hc, _ := run("C")
